@@ -298,9 +298,13 @@ impl Scenario for EcdsaNet {
                         }
                     };
                     let (r, s) = (sig.r(), sig.s());
-                    ctx.observe(&r);
-                    ctx.observe(&s);
                     let randomised = entry.starts_with("random_k");
+                    // the run digest must be a function of the plan alone: a randomised signature is one only while every entropy
+                    // read of the library passes the hooked source, which the statement does not promise - so it stays out
+                    if !randomised {
+                        ctx.observe(&r);
+                        ctx.observe(&s);
+                    }
                     ctx.probe(match entry.as_str() {
                         "det" => "sign_det",
                         "det_rev" => "sign_det_reversed",
@@ -325,14 +329,37 @@ impl Scenario for EcdsaNet {
                     }
                     // S1: verifies at the real verifier and at the textbook verifier
                     let pk_bytes = rf::pubkey_of(&key, compressed).unwrap();
-                    let pk = sk.to_public_key().ok();
+                    let pk = match guard(|| sk.to_public_key()) {
+                        Ok(Ok(pk)) => Some(pk),
+                        Ok(Err(e)) => {
+                            if ctx.violate("reject", "public-key-of-valid-secret-refused".into(), format!("to_public_key failed for a secret in [1, n-1]: {}", e)) {
+                                return;
+                            }
+                            None
+                        }
+                        Err(p) => {
+                            if ctx.violate("panic", format!("panic@{}#to_public_key", site_file(&p.site)), format!("{}: {}", p.site, p.msg)) {
+                                return;
+                            }
+                            None
+                        }
+                    };
                     if let Some(pk) = &pk {
                         if pk.to_bytes().unwrap_or_default() != pk_bytes {
                             if ctx.violate("mismatch", "pubkey-differs-from-reference".into(), "to_public_key differs from d*G".into()) {
                                 return;
                             }
                         }
-                        let ok_lib = if raw.is_some() { guard(|| ECDSA::verify_hashbuf(&digest, pk, &sig).unwrap_or(false)).unwrap_or(false) } else { guard(|| ECDSA::verify_digest(&msg, pk, &sig, he).unwrap_or(false)).unwrap_or(false) };
+                        let ok_lib_g = if raw.is_some() { guard(|| ECDSA::verify_hashbuf(&digest, pk, &sig).unwrap_or(false)) } else { guard(|| ECDSA::verify_digest(&msg, pk, &sig, he).unwrap_or(false)) };
+                        let ok_lib = match ok_lib_g {
+                            Ok(b) => b,
+                            Err(p) => {
+                                if ctx.violate("panic", format!("panic@{}#verify own signature", site_file(&p.site)), format!("{}: {}", p.site, p.msg)) {
+                                    return;
+                                }
+                                false
+                            }
+                        };
                         let ok_ref = rf::ecdsa_verify(&pk_bytes, &digest, &r, &s);
                         if !ok_lib || !ok_ref {
                             if ctx.violate("reject", format!("own-signature-does-not-verify:{} {}", entry, hash), format!("signature from {} ({}, {} key) over a {}-byte message: library verifier={}, textbook verifier={}", entry, hash, if compressed { "compressed" } else { "uncompressed" }, msg.len(), ok_lib, ok_ref)) {
@@ -393,10 +420,9 @@ impl Scenario for EcdsaNet {
                                 return;
                             }
                         }
-                        if randomised && same && slots[i].msg.len() > 0 && jhex(&requests[i], "entropy") != script {
-                            if ctx.violate("entropy", format!("entropy-ignored:{}", entry), format!("{} returned the same signature under two different entropy draws", entry)) {
-                                return;
-                            }
+                        if randomised && jhex(&requests[i], "entropy") != script {
+                            // whether the randomised signer's output moves with the draw is not part of the statement: recorded only
+                            ctx.probe(if same { "random_k_same_signature_under_other_draw" } else { "random_k_signature_moves_with_draw" });
                         }
                         continue;
                     }
